@@ -8,6 +8,7 @@ package main
 
 import (
 	"fmt"
+	"os"
 	"go/constant"
 	"go/token"
 	"go/types"
@@ -421,6 +422,9 @@ func (p *Path) ensureInit(pkg *ssa.Package) {
 				switch r.(type) {
 				case unsupportedErr, *goPanic:
 					// tolerated
+					if os.Getenv("GOSYM_DEBUG") != "" {
+						fmt.Fprintf(os.Stderr, "init of %s aborted: %v\n", pkg.Pkg.Path(), r)
+					}
 				default:
 					panic(r)
 				}
@@ -474,6 +478,9 @@ func resultZero(fn *ssa.Function) Value {
 }
 
 func (p *Path) callFunc(fn *ssa.Function, args []Value, free []Value, site *ssa.CallCommon) Value {
+	if fn.Synthetic == "package initializer" {
+		return nil // dependencies are initialised lazily when one of their globals is touched
+	}
 	name := fn.String()
 	if fn.Origin() != nil {
 		name = fn.Origin().String()
@@ -608,7 +615,7 @@ func (p *Path) invoke(recv Value, m *types.Func, args []Value, site *ssa.CallCom
 	if hv, ok := iv.v.(HostVal); ok {
 		return hostMethod(p, hv, m.Name(), args)
 	}
-	fn := p.eng.prog.LookupMethod(iv.t, m.Pkg(), m.Name())
+	fn := p.eng.lookupMethod(iv.t, m.Name())
 	if fn == nil {
 		panic(unsupported(fmt.Sprintf("no method %s on %v", m.Name(), iv.t)))
 	}
